@@ -279,6 +279,17 @@ def judge_lock(ctx, rng, j):
                                                              script))]
     info = {'handles': [1, 2], 'keys': [b'k'], 'wants': []}
     ws = list(honest)
+    # flagged key spends, permitted and with one excess bit: both lock forms
+    # must draw the same line
+    free = [b for b in range(8) if not (allowed >> b) & 1]
+    fl = [max(permitted)] + ([min(permitted) | (1 << free[
+        rng.randrange(len(free))])] if free else [])
+    for g in fl:
+        try:
+            ws.append(bytes(tools.make_taproot_witness_keyspend(
+                seed, fields, script, sigflags=f'{g:02x}')))
+        except BaseException:
+            pass
     for _ in range(4):
         pre = auth.witness(rng, info)
         ws.append(pre + rng.choice(honest))
